@@ -645,6 +645,12 @@ func (st *state) enumRule(src, dst *spec.T) (*Plan, *Reject) {
 		}
 		return dset[target]
 	}
+	// members that the output package cannot name
+	for _, k := range sm {
+		if !spec.Exported(k.Name) && src.Pkg != st.c.OutPkg {
+			return nil, reject("enum-unexported-member", "%s.%s is not accessible from the output package", key(src), k.Name)
+		}
+	}
 	sorted := append([]spec.Const{}, sm...)
 	for i := 1; i < len(sorted); i++ {
 		for j := i; j > 0 && sorted[j].Name < sorted[j-1].Name; j-- {
